@@ -41,7 +41,12 @@ PREFIX_E = [
     {'op': 'createTrial', 'trial': {'state': 'REQUESTED', 'params': 1, 'meas': [], 'final': None, 'md': []}},
     {'op': 'suggest', 'client': 'w1', 'count': 1, 'alg': {'kind': 'ok', 'sugg': [], 'delta': []}},     # takes the queued trial: no algorithm call
 ]   # trial 1 is the study's ONLY ACTIVE trial (used with the service's own early-stopping algorithm)
-PREFIXES = {'A': PREFIX_A, 'B': PREFIX_B, 'C': PREFIX_C, 'D': PREFIX_D, 'E': PREFIX_E}
+PREFIX_F = [
+    {'op': 'createStudy', 'display': 's', 'state': 'ACTIVE', 'algorithm': 'GRID_SEARCH'},
+    {'op': 'suggest', 'client': 'w0', 'count': 1, 'alg': {'kind': 'ok', 'sugg': [], 'delta': []}},
+    {'op': 'complete', 'id': 1, 'final': [3, True]},
+]   # a GRID_SEARCH study served by the service's OWN policy factory (deterministic algorithm, persisted state)
+PREFIXES = {'A': PREFIX_A, 'B': PREFIX_B, 'C': PREFIX_C, 'D': PREFIX_D, 'E': PREFIX_E, 'F': PREFIX_F}
 
 
 def S(n, base, delta=None):
@@ -286,7 +291,7 @@ def pairs_for(tier, rng):
   allpairs = [(a, b) for i, a in enumerate(names) for b in names[i:]]
   tasks = []
   for pname in PREFIXES:
-    if pname in ('D', 'E'):
+    if pname in ('D', 'E', 'F'):
       continue            # the two-study prefix: directed pairs only (run)
     for a, b in allpairs:
       # requests on trial 1/2 need the prefix with those trials
@@ -343,6 +348,9 @@ def run(c):
   # the service's own early-stopping algorithm (RandomPolicy over the ACTIVE trials it lists itself) against calls
   # that take the checked trial - the study's only ACTIVE one - away between the check and the algorithm's read
   jobs += [('realalg:ram', 'E', 'earlyStop1', b, limit) for b in ('complete1', 'delete1', 'stop1', 'complete1inf')]
+  # ... and the service's own policy factory with a stateful deterministic algorithm (GRID_SEARCH): the policy is
+  # built, restored and dumped by the code that production uses, while metadata / trial writes of other callers land
+  jobs += [('realalg:ram', 'F', 'suggestNew', b, limit) for b in ('mdStudy', 'suggestNew2', 'createTrial2', 'setInactive')]
   alias_pairs = [('setInactiveAlias', 'mdStudy'), ('createTrialAlias', 'createTrial'), ('mdStudyAlias', 'setInactive'),
                  ('mdStudyAlias', 'mdStudyK0'), ('createTrialAlias', 'suggestNew'), ('setInactiveAlias', 'complete1')]
   jobs += [(be, 'A', a, b, limit) for be in backends for a, b in alias_pairs]
